@@ -187,6 +187,9 @@ def run(ck):
                                         if bad:
                                             why = "a training row measured in '%s' is %s the pool the negative chains start from; the pool must hold exactly the rows whose every site is Z" % (
                                                 " ".join("Z" if z else "X" for z in bad[0]), "put into" if tab[bad[0]] else "left out of")
+                                elif zt == T.sym("data"):
+                                    okz = False
+                                    why = "the pool the negative chains start from is the whole training set (rows measured in rotated bases included); it must hold exactly the rows whose every site is Z"
                                 elif za is None or "data" not in zt.syms():
                                     okz = False
                             ck.check(okz, "C07.R4", inst + ":z_samples = all-Z rows of the data", fsite, why)
